@@ -340,8 +340,11 @@ func c17Existence(c *Ctx, rule string) {
 				if g.containsCall(nn, "storage.RelationService.Close", "storage.fileStore.close") != nil {
 					return Cut
 				}
-				if r, ok := nn.(*ast.ReturnStmt); ok && g.ReturnMayBeNil(r) {
-					return Hit
+				if r, ok := nn.(*ast.ReturnStmt); ok {
+					if g.ReturnMayBeNil(r) {
+						return Hit
+					}
+					return Cut // an error return ends the path
 				}
 				return Go
 			}, nil)
